@@ -180,6 +180,7 @@ var boxAssumptions = []string{
 
 func init() {
 	register("C10", &CheckSpec{Level: "model_checking", Assumptions: boxAssumptions, Parts: []*PartSpec{boxPart("routing", "c10", 16)}})
+	register("C16", &CheckSpec{Level: "exploration", Assumptions: boxAssumptions, Parts: []*PartSpec{boxPart("configurations", "c16", 16)}})
 	c14 := checks["C14"]
 	c14.Parts = append(c14.Parts, boxPart("server", "c14", 16))
 	c14.Assumptions = append(c14.Assumptions, boxAssumptions...)
